@@ -120,6 +120,7 @@ def k7scen (t : Tokens) : String :=
   | "rename-dir-while-child-closing" => "renamed=1 uac=0"
   | "rename-of-an-entry-whose-last-fid-is-closing" => "renamed=1 leaks= dbl= uac="
   | "cut-with-a-walk-in-the-backend" => "returned=1 leaks= dbl= uac="
+  | "panic-in-a-read-class-call-keeps-serving" => "efault=1 setattr=1 renamed=1"
   | "two-tclunk-one-fid" => "rclunk=1 ebadf=1"
   | "refused-unlink-keeps-the-path-node" => "overlapped=0"
   | "clunk-races-inflight-read" => "clunked=1 closed_early=0 closed_after=1 uac=0"
